@@ -108,21 +108,54 @@ func vParam(name string) int {
 	}
 	return v
 }
-func vSymbolic() bool                        { return false }
-func vAnd(a, b bool) bool                    { return a && b }
-func vOr(a, b bool) bool                     { return a || b }
-func vNot(a bool) bool                       { return !a }
-func vIteInt(c bool, a, b int) int           { if c { return a }; return b }
-func vIteInt32(c bool, a, b int32) int32     { if c { return a }; return b }
-func vIteInt64(c bool, a, b int64) int64     { if c { return a }; return b }
-func vIteUint8(c bool, a, b uint8) uint8     { if c { return a }; return b }
-func vIteUint64(c bool, a, b uint64) uint64  { if c { return a }; return b }
-func vIteBool(c bool, a, b bool) bool        { if c { return a }; return b }
-func vBytesEq(a, b []byte) bool              { return bytes.Equal(a, b) }
-func vBytesCmp(a, b []byte) int              { return bytes.Compare(a, b) }
-func vConcInt(x int) int                     { return x }
-func vYield(what string)                     { runtime.Gosched() }
-func vLiveGoroutines() int                   { time.Sleep(20 * time.Millisecond); return runtime.NumGoroutine() - vBaseGoroutines }
+func vSymbolic() bool     { return false }
+func vAnd(a, b bool) bool { return a && b }
+func vOr(a, b bool) bool  { return a || b }
+func vNot(a bool) bool    { return !a }
+func vIteInt(c bool, a, b int) int {
+	if c {
+		return a
+	}
+	return b
+}
+func vIteInt32(c bool, a, b int32) int32 {
+	if c {
+		return a
+	}
+	return b
+}
+func vIteInt64(c bool, a, b int64) int64 {
+	if c {
+		return a
+	}
+	return b
+}
+func vIteUint8(c bool, a, b uint8) uint8 {
+	if c {
+		return a
+	}
+	return b
+}
+func vIteUint64(c bool, a, b uint64) uint64 {
+	if c {
+		return a
+	}
+	return b
+}
+func vIteBool(c bool, a, b bool) bool {
+	if c {
+		return a
+	}
+	return b
+}
+func vBytesEq(a, b []byte) bool { return bytes.Equal(a, b) }
+func vBytesCmp(a, b []byte) int { return bytes.Compare(a, b) }
+func vConcInt(x int) int        { return x }
+func vYield(what string)        { runtime.Gosched() }
+func vLiveGoroutines() int {
+	time.Sleep(20 * time.Millisecond)
+	return runtime.NumGoroutine() - vBaseGoroutines
+}
 func vBlockUntil(p *bool) {
 	for !*p {
 		time.Sleep(time.Millisecond)
